@@ -702,7 +702,14 @@ def rule_h(ctx, ix):
     if len(loaders) < 60:
         raise AnalysisError('C02.h: only %d loaders found' % len(loaders))
     n = 0
-    for f in loaders:
+    # the `saved or default` detector must recognise its reference example (no site on today's tree: not a vacuous pass)
+    import types
+    probe = types.SimpleNamespace(
+        params=['cls', 'rec', 'context'], construct='<reference example>', cls=None, module=None, is_probe=True,
+        node=ast.parse("def __setgluestate__(cls, rec, context):\n    state = context.object(rec['state'])\n"
+                       "    return cls(state.get('coords') or ['x'], state.get('next_transform'))\n").body[0])
+    probe_hits = []
+    for f in loaders + [probe]:
         ps = [p for p in f.params if p not in ('cls', 'self')]
         if not ps:
             continue
@@ -739,11 +746,16 @@ def rule_h(ctx, ix):
                             tainted.add(t.id)
         for bo in [b for b in ast.walk(f.node) if isinstance(b, ast.BoolOp) and isinstance(b.op, ast.Or)]:
             if saved(bo.values[0]) and not isinstance(bo.values[0], ast.Name):
+                if getattr(f, 'is_probe', False):
+                    probe_hits.append(bo)
+                    continue
                 default = unparse(bo.values[-1])
                 ctx.ob(R, '%s `%s`' % (f.construct, norm(bo)[:80]), 'a falsy saved value is not replaced by another default inside the loader',
                        default.replace(' ', '') in FALSY_DEFAULTS,
                        detail='%s reads the saved value as `%s`: a saved falsy value (0, "", an empty list) comes back as %s instead of '
                               'what was saved' % (f.construct, norm(bo)[:100], default), where=where(f, bo))
+        if getattr(f, 'is_probe', False):
+            continue
         for call in calls_in(f.node):
             K = None
             if isinstance(call.func, ast.Name) and call.func.id == 'cls' and f.cls is not None:
@@ -784,6 +796,8 @@ def rule_h(ctx, ix):
                        detail='%s passes the saved value `%s` to %s.__init__ parameter %s, which stores `%s or %s`: a saved falsy value '
                               '(0, "", empty) comes back as the default instead of the saved value'
                               % (f.construct, unparse(a)[:80], K.name, p, p, default), where=where(f, call))
+    if not probe_hits:
+        raise AnalysisError('C02.h: the `saved or default` detector no longer recognises its reference example')
     if n < 3:
         raise AnalysisError('C02.h: only %d saved-value -> defaulting-parameter flows recognised' % n)
 
